@@ -370,6 +370,28 @@ def run_manual(ctx, res, provider):
                 x.add_alarm(al)
             return [S.c_time(t.trigger) for t in x.times]
         o = S.observe(go, lambda v: v)
+
+        def go_history():
+            """the same final settings reached through reads and changed settings on ONE object"""
+            x = Alarms()
+            other = rng.choice([d for d in STARTS if d is not None])
+            x.set_start(S.mk_dt(other, provider))
+            S.observe(lambda: [t.trigger for t in x.times], lambda v: 0)
+            for al in holder.subcomponents:
+                x.add_alarm(al)
+                S.observe(lambda: [t.trigger for t in x.times], lambda v: 0)
+            if en is not None:
+                x.set_end(S.mk_dt(en, provider))
+                S.observe(lambda: [t.trigger for t in x.times], lambda v: 0)
+            if st is not None:
+                x.set_start(S.mk_dt(st, provider))
+            return [S.c_time(t.trigger) for t in x.times]
+        if st is not None:
+            oh = S.observe(go_history, lambda v: v)
+            if oh != o:
+                res.fail("C14 manual: an Alarms object driven through reads and changed settings answers differently from a fresh "
+                         "one with the same final settings", {"provider": provider, "start": st, "end": en, "alarms": common.jsonable(als)},
+                         observed=oh, expected=o)
         wt = lambda d: S.NONE if d is None else S.w_time(S.mk_dt(d, provider))    # noqa: E731
         wa = [w_alarm(a, provider) for a in als]
         arg = [wt(st), wt(en), wa]
